@@ -14,6 +14,7 @@ import Driver.C09
 import Driver.C07
 import Driver.C13pr
 import Driver.C01ext
+import Driver.C07cm
 
 def main (args : List String) : IO UInt32 := do
   let stdin ← IO.getStdin
@@ -34,4 +35,5 @@ def main (args : List String) : IO UInt32 := do
   | ["c07"] => C07Val.main stdin
   | ["c13pr"] => C13prVal.main stdin
   | ["c01ext"] => C01extVal.main stdin
+  | ["c07cm"] => C07cmVal.main stdin
   | _ => do IO.eprintln "usage: midriver <trval|entry|...>"; return 2
